@@ -996,11 +996,15 @@ func runC14(ctx *Ctx) error {
 	nHist := 1200
 	maxLen := 12
 	if ctx.Thorough() {
-		nHist = 5000
+		nHist = 9000
 		maxLen = 40
 	}
 	var gen *c14Case
 	for k := 0; k < nHist; k++ {
+		if len(ctx.Rep.Failures) >= 40 {
+			ctx.Rep.Note("stopped generating after 40 failing histories")
+			break
+		}
 		r := ctx.Rand.Fork()
 		ttl := hx.Pick(r, c14TTLs)
 		var cs *c14Case
